@@ -19,6 +19,7 @@ import (
 	"cosmossdk.io/math"
 	sdk "github.com/cosmos/cosmos-sdk/types"
 	authtypes "github.com/cosmos/cosmos-sdk/x/auth/types"
+	"github.com/cosmos/cosmos-sdk/x/authz"
 	banktypes "github.com/cosmos/cosmos-sdk/x/bank/types"
 	distrtypes "github.com/cosmos/cosmos-sdk/x/distribution/types"
 	govtypes "github.com/cosmos/cosmos-sdk/x/gov/types"
@@ -27,6 +28,8 @@ import (
 	channeltypes "github.com/cosmos/ibc-go/v8/modules/core/04-channel/types"
 
 	"github.com/dymensionxyz/dymension/v3/app/apptesting"
+	denommetadata "github.com/dymensionxyz/dymension/v3/x/denommetadata"
+	dmtypes "github.com/dymensionxyz/dymension/v3/x/denommetadata/types"
 	irotypes "github.com/dymensionxyz/dymension/v3/x/iro/types"
 	rollapptypes "github.com/dymensionxyz/dymension/v3/x/rollapp/types"
 )
@@ -74,6 +77,11 @@ type c10H struct {
 	canonOf  map[int]string // rollapp -> canonical client id made by `link`
 	connOf   map[int]string
 	complete map[int]bool // a success ack for a handshake packet was observed
+	// the harness opened a channel of the rollapp through a top-level MsgChannelOpenAck the ante handler let through
+	hasCanonChan map[int]bool
+	// success acknowledgements observed for packets that arrived on a rollapp's canonical channel while its
+	// TransferProofHeight was 0 (= completed handshakes; the model's ghost counter nOpen)
+	nOpen map[int]int
 	seqNo    map[int]uint64
 }
 
@@ -100,7 +108,7 @@ func (h *c10H) addr(t uint64) string {
 var c10Pool = []uint64{1, 2, 3, 4, 5, 6, 7, 8, 9, c10IroTok, c10BlockedTok}
 
 func newC10H(t *testing.T) *c10H {
-	h := &c10H{e: newIbcEnv(t, 8), t: t, canonOf: map[int]string{}, connOf: map[int]string{}, complete: map[int]bool{}, seqNo: map[int]uint64{}}
+	h := &c10H{e: newIbcEnv(t, 8), t: t, canonOf: map[int]string{}, connOf: map[int]string{}, complete: map[int]bool{}, seqNo: map[int]uint64{}, hasCanonChan: map[int]bool{}, nOpen: map[int]int{}}
 	h.gov = authtypes.NewModuleAddress(govtypes.ModuleName).String()
 	if !h.e.f.App.BankKeeper.BlockedAddr(authtypes.NewModuleAddress(distrtypes.ModuleName)) {
 		t.Fatal("distribution module account is expected to be blocked")
@@ -354,6 +362,8 @@ func c10AckClass(ack []byte, success bool, isNil bool, et string) string {
 	}
 	has := func(s string) bool { return strings.Contains(et, s) }
 	switch {
+	case has("get rollapp id") && has("canonical channel is missing"):
+		return "err:noChannel"
 	case has("get rollapp id"):
 		return "err:notCanonical"
 	case has("unmarshal genesis bridge data"):
@@ -492,6 +502,9 @@ func (h *c10H) exec(line string) (res string, rc *c10Recv) {
 			BondingCurve: irotypes.DefaultBondingCurve(), TradingEnabled: m["te"] != "0", IroPlanDuration: time.Duration(atou(m["dur"])) * time.Second,
 			IncentivePlanParams: irotypes.DefaultIncentivePlanParams(), LiquidityPart: irotypes.DefaultParams().MinLiquidityPart, LiquidityDenom: ibcDenom,
 			VestingDuration: irotypes.DefaultParams().MinVestingDuration, VestingStartTimeAfterSettlement: 0}
+		if st, ok := m["start"]; ok { // MsgCreatePlan.start_time (seconds after BaseTime); absent = the zero time
+			msg.StartTime = BaseTime.Add(time.Duration(atou(st)) * time.Second)
+		}
 		return c10Res(h.deliver(&msg)), nil
 	case "enable":
 		// MsgEnableTrading of the plan of rollapp r<i>; a rollapp without a plan is addressed through a plan id that does not exist
@@ -552,8 +565,85 @@ func (h *c10H) exec(line string) (res string, rc *c10Recv) {
 		}
 		h.e.setChannelOpen(ch, cp)
 		h.canonOf[ri], h.connOf[ri] = cid, conn
+		h.hasCanonChan[ri] = true
 		h.chans = append(h.chans, c10Chan{ch, 'c', ri})
 		return "ok", nil
+	case "canon":
+		// the rollapp's light client becomes canonical; no channel yet
+		ri := ridx(f[1])
+		id := ibcRollappID(ri)
+		ra, ok := app.RollappKeeper.GetRollapp(h.e.f.Ctx, id)
+		if _, has := app.LightClientKeeper.GetCanonicalClient(h.e.f.Ctx, id); !ok || !ra.Launched || has {
+			return "err", nil
+		}
+		cid, err := h.e.createClient(ibcClientState(id, 10, "ok"), ibcRaTime(10), ibcRoot(10), h.e.valHash(0))
+		if err != nil {
+			h.t.Fatal(err)
+		}
+		app.LightClientKeeper.SetCanonicalClient(h.e.f.Ctx, id, cid) // designation itself is C09's subject
+		h.canonOf[ri], h.connOf[ri] = cid, h.e.openConnection(cid)
+		return "ok", nil
+	case "chopen":
+		// a transfer channel over the rollapp's canonical client reaches OPEN on the hub.  The channel is
+		// created by a real MsgChannelOpenInit; the hub-side message that would open it is sent through
+		// the production ante handler (its proof cannot verify: no counterparty chain) and the channel
+		// end is then flipped to OPEN through the keeper:
+		//   via=ack     MsgChannelOpenAck as a top-level message (the ante hook records the canonical channel,
+		//               or refuses the transaction when one is recorded already)
+		//   via=nested  the same message inside authz.MsgExec (grantee = signer: no grant needed)
+		//   via=try     handshake started from the rollapp: the hub sees MsgChannelOpenTry / MsgChannelOpenConfirm
+		ri := ridx(f[1])
+		conn, ok := h.connOf[ri]
+		if !ok {
+			return "err", nil
+		}
+		ch, err := h.e.chanOpenInit(conn)
+		if err != nil {
+			h.t.Fatal(err)
+		}
+		cp := fmt.Sprintf("channel-%d", 80+len(h.chans))
+		ack := channeltypes.NewMsgChannelOpenAck("transfer", ch, cp, "ics20-1", []byte("proof"), clienttypes.NewHeight(1, 10), h.e.relayer.String())
+		kind := byte('s')
+		switch m["via"] {
+		case "ack":
+			if ae, _ := h.e.runTx(ack); ae != nil {
+				return "err", nil // refused by the ante handler: the channel stays in INIT
+			}
+			if !h.hasCanonChan[ri] {
+				kind = 'c'
+				h.hasCanonChan[ri] = true
+			}
+		case "nested":
+			exec := authz.NewMsgExec(h.e.relayer, []sdk.Msg{ack})
+			if ae, _ := h.e.runTx(&exec); ae != nil {
+				h.t.Fatal("nested MsgChannelOpenAck refused by the ante handler: ", ae)
+			}
+		default:
+			try := channeltypes.NewMsgChannelOpenTry("transfer", "ics20-1", channeltypes.UNORDERED, []string{conn}, "transfer", cp, "ics20-1",
+				[]byte("proof"), clienttypes.NewHeight(1, 10), h.e.relayer.String())
+			if ae, _ := h.e.runTx(try); ae != nil {
+				h.t.Fatal("MsgChannelOpenTry refused by the ante handler: ", ae)
+			}
+			confirm := channeltypes.NewMsgChannelOpenConfirm("transfer", ch, []byte("proof"), clienttypes.NewHeight(1, 10), h.e.relayer.String())
+			if ae, _ := h.e.runTx(confirm); ae != nil {
+				h.t.Fatal("MsgChannelOpenConfirm refused by the ante handler: ", ae)
+			}
+		}
+		h.e.setChannelOpen(ch, cp)
+		h.chans = append(h.chans, c10Chan{ch, kind, ri})
+		return "ok", nil
+	case "premd":
+		// governance registers bank metadata for the IBC denom of the rollapp's native denom on its recorded canonical
+		// channel, outside the handshake: the production handler of a passed CreateDenomMetadataProposal
+		ra, ok := app.RollappKeeper.GetRollapp(h.e.f.Ctx, ibcRollappID(ridx(f[1])))
+		if !ok || ra.ChannelId == "" || ra.GenesisInfo.NativeDenom.Base == "" {
+			return "err", nil // there is no such IBC denom
+		}
+		d := transfertypes.ParseDenomTrace(transfertypes.GetPrefixedDenom("transfer", ra.ChannelId, ra.GenesisInfo.NativeDenom.Base)).IBCDenom()
+		prop := dmtypes.NewCreateMetadataProposal("pre-register", "metadata of a rollapp denom registered by governance", []banktypes.Metadata{{
+			Base: d, Display: d, Name: "preregistered", Symbol: "PRE", DenomUnits: []*banktypes.DenomUnit{{Denom: d, Exponent: 0}}}})
+		handler := denommetadata.NewDenomMetadataProposalHandler(app.DenomMetadataKeeper)
+		return c10Res(h.e.f.Try(func(ctx sdk.Context) error { return handler(ctx, prop) })), nil
 	case "link2":
 		ri := ridx(f[1])
 		conn, ok := h.connOf[ri]
@@ -646,7 +736,16 @@ func (h *c10H) exec(line string) (res string, rc *c10Recv) {
 		rc.data = data
 		h.seqNo[indexOfChan(h.chans, c.id)]++
 		pkt := channeltypes.NewPacket(data, h.seqNo[indexOfChan(h.chans, c.id)], "transfer", "channel-77", "transfer", c.id, clienttypes.NewHeight(1, 100000), 0)
+		closedBefore := false
+		if c.kind == 'c' {
+			if ra, ok := app.RollappKeeper.GetRollapp(h.e.f.Ctx, ibcRollappID(c.r)); ok {
+				closedBefore = ra.GenesisState.TransferProofHeight == 0
+			}
+		}
 		ack, et, err := h.e.recvPacket(pkt, clienttypes.NewHeight(1, atou(m["ph"])))
+		if err == nil && ack != nil && ack.Success() && closedBefore {
+			h.nOpen[c.r]++
+		}
 		if err != nil {
 			if IsPanic(err) {
 				return "panic", rc
@@ -697,6 +796,7 @@ type c10RaSnap struct {
 	Bal              map[uint64]*big.Int
 	Supply           *big.Int
 	Denom            string
+	NOpen            int
 }
 
 type c10Snap struct {
@@ -781,6 +881,7 @@ func (h *c10H) snapshot() *c10Snap {
 			chanOwner[ra.ChannelId] = ri
 		}
 		r.Tph = ra.GenesisState.TransferProofHeight
+		r.NOpen = h.nOpen[ri]
 		r.Bal = map[uint64]*big.Int{}
 		r.Supply = big.NewInt(0)
 		s.Ras = append(s.Ras, r)
@@ -877,7 +978,7 @@ func (s *c10Snap) render(res string) string {
 		if r.HasPlan {
 			te = b2s(r.PlanTE)
 		}
-		fmt.Fprintf(&sb, " | r%d l=%s gi=%s pl=%s plan=%s te=%s ps=%s ch=%s tph=%d md=%s bal=%s", ri, b2s(r.Launched), r.GI, r.PreLaunch, r.Plan, te, r.PlanStart, r.Chan, r.Tph, b2s(r.Md), bal)
+		fmt.Fprintf(&sb, " | r%d l=%s gi=%s pl=%s plan=%s te=%s ps=%s ch=%s tph=%d no=%d md=%s bal=%s", ri, b2s(r.Launched), r.GI, r.PreLaunch, r.Plan, te, r.PlanStart, r.Chan, r.Tph, r.NOpen, b2s(r.Md), bal)
 	}
 	sb.WriteString(" | chans=" + s.Chans)
 	return sb.String()
@@ -972,7 +1073,7 @@ func (m *c10Mon) check(op, res string, rc *c10Recv, cur *c10Snap, digestBefore, 
 			m.violate("C10/genesis_info_frozen/not-sealed", fmt.Sprintf("r%d launched=%v plan=%v gi=%s", ri, p.Launched, p.HasPlan, p.GI))
 		}
 		// crediting happens only in a successful handshake
-		if !(f[0] == "recv" && rc != nil && rc.ch.kind == 'c' && rc.ch.r == ri) && (!c10BalEq(p.Bal, c.Bal) || p.Tph != c.Tph || p.Md != c.Md) {
+		if !(f[0] == "recv" && rc != nil && rc.ch.kind == 'c' && rc.ch.r == ri) && (!c10BalEq(p.Bal, c.Bal) || p.Tph != c.Tph || (p.Md != c.Md && !(f[0] == "premd" && ridx(f[1]) == ri && !p.Md))) {
 			m.violate("C10/credited_exactly/bridge-state-changed-outside-handshake", fmt.Sprintf("r%d by %s", ri, op))
 		}
 	}
@@ -990,6 +1091,18 @@ func (m *c10Mon) check(op, res string, rc *c10Recv, cur *c10Snap, digestBefore, 
 		}
 	case "send":
 		c, ok := h.chanByTok(f[1])
+		if ok && c.kind == 's' {
+			// closed: nothing is sent over ANY channel of the rollapp's canonical client before the handshake has
+			// completed, whether a canonical channel is recorded or not - and over a non-canonical one never
+			if res == "ok" {
+				if !h.complete[c.r] {
+					m.violate("C10/closed/send-allowed-before-handshake", op)
+				} else {
+					m.violate("C10/closed/send-allowed-non-canonical-channel", op)
+				}
+			}
+			return
+		}
 		if !ok || c.kind != 'c' {
 			return
 		}
@@ -1000,6 +1113,20 @@ func (m *c10Mon) check(op, res string, rc *c10Recv, cur *c10Snap, digestBefore, 
 			m.violate("C10/open_flows/transfer-refused-after-handshake", op)
 		}
 	case "recv":
+		if rc != nil && rc.ch.kind == 's' {
+			// closed: a packet on a channel of the rollapp's canonical client that is not its recorded canonical
+			// channel is neither accepted nor passed on to the transfer stack, and changes nothing
+			if rc.success || rc.isNil {
+				if !h.complete[rc.ch.r] {
+					m.violate("C10/closed/recv-accepted-before-handshake", op)
+				} else {
+					m.violate("C10/closed/recv-accepted-non-canonical-channel", op)
+				}
+			} else if digestBefore != digestAfter {
+				m.violate("C10/closed/state-changed-on-error-ack", op)
+			}
+			return
+		}
 		if rc == nil || rc.ch.kind != 'c' {
 			return
 		}
@@ -1568,6 +1695,7 @@ func (c *c10Gen) next(s *c10Snap, step int) string {
 		return "create " + rt + " " + gi.line()
 	}
 	linked := r.Chan != "-"
+	_, hasClient := h.canonOf[ri]
 	k := g.Intn(100)
 	switch {
 	case !r.Launched && k < 30:
@@ -1638,7 +1766,16 @@ func (c *c10Gen) next(s *c10Snap, step int) string {
 		} else {
 			c.r.Hit("plan/trading-enabled")
 		}
-		return fmt.Sprintf("plan %s by=%s alloc=%s dur=%d te=%d", rt, by, alloc, dur, te)
+		start := ""
+		switch g.Intn(5) {
+		case 0: // MsgCreatePlan.start_time in the future
+			start = fmt.Sprintf(" start=%d", s.Now+int64(60*(1+g.Intn(20))))
+			c.r.Hit(fmt.Sprintf("plan/start-time-future-te%d", te))
+		case 1: // ... in the past (or now)
+			start = fmt.Sprintf(" start=%d", s.Now-int64(g.Intn(int(s.Now)+1)))
+			c.r.Hit(fmt.Sprintf("plan/start-time-past-te%d", te))
+		}
+		return fmt.Sprintf("plan %s by=%s alloc=%s dur=%d te=%d%s", rt, by, alloc, dur, te, start)
 	case !r.Launched && k < 60:
 		c.r.Hit("tick")
 		return fmt.Sprintf("tick dt=%d", 300*(1+g.Intn(5)))
@@ -1650,10 +1787,24 @@ func (c *c10Gen) next(s *c10Snap, step int) string {
 			}
 		}
 		return "seq " + rt
-	case !linked && k < 60:
+	case !linked && !hasClient && k < 30:
 		return "link " + rt
-	case !linked && k < 70:
+	case !linked && !hasClient && k < 62:
+		c.r.Hit("canon/client-before-channel")
+		return "canon " + rt
+	case !linked && !hasClient && k < 70:
 		return "tick dt=60"
+	case !linked && hasClient && k < 22:
+		c.r.Hit("chopen/ack-records-canonical-channel")
+		return "chopen " + rt + " via=ack"
+	case !linked && hasClient && k < 36:
+		c.r.Hit("chopen/nested-ack-no-canonical-channel")
+		return "chopen " + rt + " via=nested"
+	case !linked && hasClient && k < 50:
+		c.r.Hit("chopen/try-confirm-no-canonical-channel")
+		return "chopen " + rt + " via=try"
+	case !linked && hasClient:
+		// packets / transfers on the channels opened so far over the canonical client (below)
 	case k < 8:
 		gi := c.validGI(ri)
 		if g.Chance(50) {
@@ -1671,7 +1822,24 @@ func (c *c10Gen) next(s *c10Snap, step int) string {
 		c.r.Hit("force/by-" + by)
 		return "force " + rt + " by=" + by + " " + gi.line()
 	case k < 14:
+		switch g.Intn(4) {
+		case 0:
+			c.r.Hit("chopen/ack-canonical-channel-exists")
+			return "chopen " + rt + " via=ack"
+		case 1:
+			c.r.Hit("chopen/nested-ack-canonical-channel-exists")
+			return "chopen " + rt + " via=nested"
+		case 2:
+			c.r.Hit("chopen/try-confirm-canonical-channel-exists")
+			return "chopen " + rt + " via=try"
+		}
 		return "link2 " + rt
+	case k < 15 && !h.complete[ri]:
+		c.r.Hit("premd/before-handshake")
+		return "premd " + rt
+	case k < 15:
+		c.r.Hit("premd/after-handshake")
+		return "premd " + rt
 	case k < 17:
 		return "plainch"
 	case k < 19:
@@ -1682,13 +1850,17 @@ func (c *c10Gen) next(s *c10Snap, step int) string {
 		return c.enableLine(ri, r) // launched: the plan (if any) has trading enabled, or was settled
 	}
 	if len(h.chans) == 0 {
+		if hasClient {
+			return "chopen " + rt + " via=try"
+		}
 		return "link " + rt
 	}
-	// packets and transfers on some channel, biased towards this rollapp's canonical one
+	// packets and transfers on some channel, biased towards this rollapp's canonical one (while none is
+	// recorded: towards the channels opened over its canonical client)
 	ci := g.Intn(len(h.chans))
 	if g.Chance(70) {
 		for i, ch := range h.chans {
-			if ch.kind == 'c' && ch.r == ri {
+			if ch.r == ri && (ch.kind == 'c' || (ch.kind == 's' && !linked)) {
 				ci = i
 			}
 		}
@@ -1697,6 +1869,16 @@ func (c *c10Gen) next(s *c10Snap, step int) string {
 	phase := "before"
 	if ch.kind == 'c' && h.complete[ch.r] {
 		phase = "after"
+	}
+	if ch.kind == 's' {
+		switch {
+		case ch.r < len(s.Ras) && s.Ras[ch.r].Chan == "-":
+			phase = "no-canonical-channel"
+		case !h.complete[ch.r]:
+			phase = "other-canonical-before"
+		default:
+			phase = "other-canonical-after"
+		}
 	}
 	if g.Chance(25) {
 		c.r.Hit(fmt.Sprintf("send/%c-%s", ch.kind, phase))
@@ -1779,6 +1961,8 @@ func c10Directed() [][]string {
 	reg := "1:10;50:" + alloc
 	rerouted := "1:10;50:5500000000000000000;9:5500000000000000000"
 	hs := "recv c0 ph=7 kind=gb " + gi(1, reg) + " md=1/1:0,11:18/1/1 mdshape=ok tr=1/" + sum + "/1/0/1"
+	gi2 := "ck=1 pf=1 nb=1 nd=11 ne=18 sup=30 accs=1:10;2:20 sealed=0"
+	hs2 := "recv cX ph=7 kind=gb " + gi2 + " md=1/1:0,11:18/1/1 mdshape=ok tr=1/30/1/0/1"
 	return [][]string{
 		{ // plan with trading disabled seals; the owner's updates are refused before and after MsgEnableTrading; handshake settles
 			"reset nra=2",
@@ -1827,6 +2011,75 @@ func c10Directed() [][]string {
 			"seq r0",
 			"link r0",
 			hs,
+		},
+		{ // MsgCreatePlan.start_time: refused without trading_enabled; in the future it moves the start of trading and the pre-launch time
+			"reset nra=2",
+			"create r0 " + gi(1, reg),
+			"tick dt=100",
+			"plan r0 by=owner alloc=" + alloc + " dur=600 te=0 start=400",
+			"plan r0 by=owner alloc=" + alloc + " dur=600 te=1 start=400",
+			"tick dt=700",
+			"seq r0",
+			"tick dt=300",
+			"seq r0",
+			"link r0",
+			hs,
+		},
+		{ // ... in the past it is moved up to the block time
+			"reset nra=2",
+			"create r0 " + gi(1, reg),
+			"tick dt=100",
+			"plan r0 by=owner alloc=" + alloc + " dur=600 te=1 start=40",
+			"tick dt=500",
+			"seq r0",
+			"tick dt=100",
+			"seq r0",
+		},
+		{ // channels over the canonical client that the ante hook never saw (handshake started from the rollapp: Try/Confirm;
+			// MsgChannelOpenAck nested in authz.MsgExec): no canonical channel is recorded, and nothing flows in either
+			// direction - before a canonical channel exists, before the handshake on it, and after
+			"reset nra=2",
+			"create r0 " + gi2,
+			"seq r0",
+			"canon r0",
+			"chopen r0 via=try",
+			"send c0",
+			"recv c0 ph=3 kind=ft tr=1/5/1/1/1",
+			strings.Replace(hs2, "recv cX", "recv c0", 1),
+			"chopen r0 via=nested",
+			"send c1",
+			"recv c1 ph=3 kind=ft tr=1/5/1/1/1",
+			strings.Replace(hs2, "recv cX", "recv c1", 1),
+			"plainch",
+			"chopen r0 via=ack",
+			"send c3",
+			"recv c3 ph=3 kind=ft tr=1/5/1/1/1",
+			strings.Replace(hs2, "recv cX", "recv c0", 1),
+			"send c0",
+			strings.Replace(hs2, "recv cX", "recv c3", 1),
+			"send c3",
+			"send c0",
+			"send c1",
+			"recv c1 ph=9 kind=ft tr=1/5/1/1/1",
+			strings.Replace(hs2, "recv cX", "recv c1", 1),
+			"chopen r0 via=ack",
+			"chopen r0 via=try",
+			"send c5",
+			"recv c5 ph=9 kind=ft tr=1/5/1/1/1",
+			"recv c3 ph=9 kind=ft tr=1/5/1/1/1",
+		},
+		{ // metadata of the rollapp's IBC denom registered by governance before the handshake: the handshake's own
+			// CreateDenomMetadata fails, the bridge stays closed
+			"reset nra=2",
+			"create r0 " + gi2,
+			"seq r0",
+			"premd r0",
+			"link r0",
+			"premd r0",
+			"premd r0",
+			strings.Replace(hs2, "recv cX", "recv c0", 1),
+			"send c0",
+			strings.Replace(hs2, "recv cX", "recv c0", 1),
 		},
 		{ // trading never enabled: the rollapp stays unlaunchable for 10 years
 			"reset nra=2",
